@@ -1288,11 +1288,19 @@ class FileSet:
             regex = self._fill_placeholders(
                 subdir_chunk, extra_placeholder=white_list, compile=True
             )
+            # Only a sub directory with temporal placeholders narrows the time
+            # period down (the ones without were already checked one level
+            # above, and only at that level's time resolution):
+            is_temporal = bool(
+                set(re.findall(r"{(\w+)}", subdir_chunk))
+                & set(self._time_placeholder)
+            )
             search_dirs = [
                 (new_dir, attr)
                 for search_dir in search_dirs
                 for new_dir, attr in self._get_matching_dirs(search_dir, regex)
-                if self._check_placeholders(attr, start_check, end_check)
+                if not is_temporal
+                or self._check_placeholders(attr, start_check, end_check)
             ]
 
         return search_dirs
